@@ -1,6 +1,7 @@
 package ysgo
 
 import (
+	"github.com/remieven/ysgo/internal/rng"
 	"github.com/remieven/ysgo/variable"
 )
 
@@ -80,6 +81,59 @@ func VHDeterminism() {
 		if ea == nil && eb == nil {
 			vAssert(vKind(ra) == 0 && vKind(rb) == 0 && vSameFloat(*ra.Number, *rb.Number), "same random results for the same seed and calls")
 			vReach("compared")
+		}
+	}
+}
+
+// vSource: a math/rand Source whose successive values are solver-chosen 63-bit integers.
+type vSource struct {
+	n, max int
+}
+
+func (s *vSource) Int63() int64 {
+	vAssume(s.n < s.max) // at most max draws: longer rejection loops are outside the bound
+	v := int64(vInt("source.value" + vItoa(s.n)))
+	vAssume(v >= 0)
+	s.n++
+	return v
+}
+
+func (s *vSource) Seed(int64) {}
+
+// VHRandomStreams (C09 range part, on the real generator arithmetic): the built-in table over an RNG whose
+// underlying source returns arbitrary 63-bit values: for every such stream (up to DRAWS draws per call)
+// dice(n) is in [1,n], random_range(a,b) in [a,b] and random() in [0,1). Unlike VHRandomContracts this runs
+// math/rand's own Intn/Float64 code, so a counterexample is a concrete stream that the native replay feeds to it.
+func VHRandomStreams() {
+	src := &vSource{max: vParam("DRAWS", 2)}
+	fs := newFunctionStorer(rng.VNewRNGWithSource(src))
+	switch vParam("FN", 0) {
+	case 0:
+		n := int(vByte("n")) // the generator divides by n: symbolic-by-symbolic division is only tractable for a narrow n
+		vAssume(n >= 1)
+		v, e := fs.call("dice", []*variable.Value{vNum(float64(n))})
+		vAssert(e == nil && vKind(v) == 0, "dice(n) succeeds for n >= 1")
+		if e == nil {
+			r, ok := vExactInt(*v.Number)
+			vAssert(ok && 1 <= r && r <= n, "dice(n) is an integer in [1,n] for every stream of the generator")
+			vReach("dice")
+		}
+	case 1:
+		a := int(vInt32("a"))
+		b := a + int(vByte("width")) // ranges of 1..256 values anywhere in the 32-bit integers
+		v, e := fs.call("random_range", []*variable.Value{vNum(float64(a)), vNum(float64(b))})
+		vAssert(e == nil && vKind(v) == 0, "random_range(a,b) succeeds for a <= b")
+		if e == nil {
+			r, ok := vExactInt(*v.Number)
+			vAssert(ok && a <= r && r <= b, "random_range(a,b) is an integer in [a,b] for every stream of the generator")
+			vReach("random_range")
+		}
+	case 2:
+		v, e := fs.call("random", nil)
+		vAssert(e == nil && vKind(v) == 0, "random() returns a number")
+		if e == nil {
+			vAssert(0 <= *v.Number && *v.Number < 1, "random() is in [0,1) for every stream of the generator")
+			vReach("random")
 		}
 	}
 }
